@@ -71,8 +71,8 @@ def make_world(rng):
     # where a user keeps things: sub-directories, spaces, non-ASCII (the suffixes .s/.o are kept: the
     # harness tells listings from objects by them)
     d_in = rng.choice(["", "", "inputs/sub dir/", "d\u00e9p\u00f4t/", "~/", "$HOME/in/"])
-    d_rules = rng.choice(["", "my rules/", "r/u/l/", "~/rules/", "$HOME/"])
-    d_mac = rng.choice(["", "", "mac ros/", "~/"])
+    d_rules = rng.choice(["", "my rules/", "r/u/l/", "~/rules/", "$HOME/", "@rules/"])
+    d_mac = rng.choice(["", "", "mac ros/", "~/", "@m/"])
     listings = []
     for i in range(rng.randrange(2, 4)):
         text, _ins = gen.gen_listing(rng, n=rng.randrange(10, 40), branch_targets=targets)
@@ -415,6 +415,9 @@ def _match_op(rng, entry, inputs_asm, inputs_bin, mode=None, input_override=None
 
 E_FAULTS = [
     ("input_missing", lambda op: {"kind": "remove", "target": op["input"], "label": "enoent:input"}),
+    ("input_isdir", lambda op: {"kind": "mkdir_in_place", "target": op["input"], "label": "eisdir:input"}),
+    ("rule_isdir", lambda op: {"kind": "mkdir_in_place", "target": op["rule"], "label": "eisdir:rule"}),
+    ("input_emfile", lambda op: {"kind": "emfile", "target": op["input"], "label": "emfile:input"}),
     ("rule_missing", lambda op: {"kind": "remove", "target": op["rule"], "label": "enoent:rule"}),
     ("rule_eacces", lambda op: {"kind": "eacces", "target": op["rule"], "label": "eacces:rule"}),
     ("input_eio", lambda op: {"kind": "eio_read", "target": op["input"], "label": "eio_read:input"}),
@@ -433,6 +436,17 @@ def make_history(rng, world, with_faults):
     broken = [e for e in pool if e["family"] == "broken"]
     n = rng.randrange(2, 15) if rng.random() < 0.93 else rng.randrange(30, 45)
     focus = rng.choice(fams)
+    if rng.random() < 0.04:
+        # many DIFFERENT rules once each, then the first ones again: bounded tables and their eviction order
+        distinct = [e for e in pool if e["family"] != "broken"]
+        rng.shuffle(distinct)
+        first = distinct[:rng.randrange(20, 48)]
+        mode_all = rng.choice(MODES)
+        seq = [_match_op(rng, e, listings, binaries, mode=mode_all) for e in first]
+        again = [copy.deepcopy(o) for o in seq[:rng.randrange(3, 8)]]
+        for o in again:
+            o.pop("hold_object", None)
+        return seq + again
     if broken and rng.random() < 0.06:
         # an error storm: many rejected rules in a row, then ordinary operations (state that rejected
         # operations leave behind may only add up to something visible after many of them)
